@@ -23,9 +23,9 @@ Proof. reflexivity. Qed.
 
 Definition pend_data (p : ppend) : str :=
   match p with PendIgnored t => tok_data t | PendError d => d end.
-Definition cur_data (o : option ptoken) : list str :=
+Definition cur_data (o : option prstoken) : list str :=
   match o with Some t => [tok_data t] | None => [] end.
-Definition cur_item (o : option ptoken) : list item :=
+Definition cur_item (o : option prstoken) : list item :=
   match o with Some t => [ITok (tok_kind t) (tok_data t) (tok_index t)] | None => [] end.
 
 (* tokens in the builder, oldest first *)
@@ -79,7 +79,7 @@ Qed.
 
 (* ------------------------------------------------------------------ the invariant *)
 Definition st_done (s : pstate) : list str := b_chunks (ps_builder s).
-Definition ahead_of (pending : list ppend) (cur : option ptoken) (items : list item) : list str :=
+Definition ahead_of (pending : list ppend) (cur : option prstoken) (items : list item) : list str :=
   ne (map pend_data pending ++ cur_data cur ++ map item_data items).
 Definition st_ahead (s : pstate) : list str := ahead_of (ps_pending s) (ps_cur s) (ps_items s).
 Definition suffix_of (orig : list item) (s : pstate) : Prop :=
